@@ -109,6 +109,114 @@ theorem optSec_plain (ds : List Nat) (hne : ds ≠ []) (h : ∀ d ∈ ds, d < 10
     simp only
     rw [← this, numVal_digitsStr _ (by rw [← hds]; exact h)]
 
+/-! ### the fraction of the seconds field -/
+
+theorem decVal_replicate_zero (k : Nat) : decVal (List.replicate k 0) = 0 := by
+  induction k with
+  | zero => rfl
+  | succ k ih => rw [List.replicate_succ', decVal_snoc, ih]
+
+theorem takeWhile_zero_replicate (l : List Nat) :
+    l.takeWhile (· == 0) = List.replicate (l.takeWhile (· == 0)).length 0 := by
+  induction l with
+  | nil => rfl
+  | cons a t ih =>
+    simp only [List.takeWhile_cons]
+    by_cases h : a = 0
+    · subst h
+      simp only [BEq.rfl, if_true, List.length_cons, List.replicate_succ]
+      rw [← ih]
+    · have : (a == 0) = false := by simpa using h
+      rw [this]; rfl
+
+/-- the stripped digits followed by the zeros that were stripped are the digits -/
+theorem rstripZeros_pad (ds : List Nat) :
+    rstripZeros ds ++ List.replicate (ds.length - (rstripZeros ds).length) 0 = ds := by
+  have h := List.takeWhile_append_dropWhile (p := (· == 0)) (l := ds.reverse)
+  have hlen : (ds.reverse.takeWhile (· == 0)).length + (ds.reverse.dropWhile (· == 0)).length = ds.length := by
+    have := congrArg List.length h
+    rw [List.length_append, List.length_reverse] at this
+    exact this
+  have h2 : ds = (ds.reverse.dropWhile (· == 0)).reverse ++ (ds.reverse.takeWhile (· == 0)).reverse := by
+    have := congrArg List.reverse h
+    rw [List.reverse_append, List.reverse_reverse] at this
+    exact this.symm
+  unfold rstripZeros
+  rw [List.length_reverse]
+  have hk : ds.length - (ds.reverse.dropWhile (· == 0)).length = (ds.reverse.takeWhile (· == 0)).length := by omega
+  rw [hk]
+  conv => rhs; rw [h2]
+  congr 1
+  rw [takeWhile_zero_replicate ds.reverse]
+  simp
+
+theorem rstripZeros_length_le (ds : List Nat) : (rstripZeros ds).length ≤ ds.length := by
+  unfold rstripZeros
+  rw [List.length_reverse]
+  have := (List.dropWhile_sublist (· == 0) (l := ds.reverse)).length_le
+  simpa using this
+
+theorem rstripZeros_lt10 (ds : List Nat) (h : ∀ d ∈ ds, d < 10) : ∀ d ∈ rstripZeros ds, d < 10 := by
+  intro d hd
+  unfold rstripZeros at hd
+  rw [List.mem_reverse] at hd
+  have := (List.dropWhile_sublist (· == 0) (l := ds.reverse)).subset hd
+  exact h d (by simpa using this)
+
+theorem rstripZeros_ne_nil (ds : List Nat) (h : decVal ds ≠ 0) : rstripZeros ds ≠ [] := by
+  intro hnil
+  have := rstripZeros_pad ds
+  rw [hnil, List.nil_append] at this
+  rw [← this, decVal_replicate_zero] at h
+  exact h rfl
+
+theorem digitsStr_append (a b : List Nat) : digitsStr (a ++ b) = digitsStr a ++ digitsStr b := by
+  simp [digitsStr]
+
+theorem digitsStr_replicate_zero (k : Nat) : digitsStr (List.replicate k 0) = List.replicate k '0' := by
+  simp [digitsStr, digitChar]
+
+/-- `int((frac + "000000")[:6])` of the written fraction is the microseconds -/
+theorem fracMicros_frac (m : Nat) (hm : m < 1000000) :
+    fracMicros (digitsStr (rstripZeros (fixedDigits 6 m))) = m := by
+  unfold fracMicros
+  have hpad := rstripZeros_pad (fixedDigits 6 m)
+  have hle := rstripZeros_length_le (fixedDigits 6 m)
+  rw [fixedDigits_length] at hpad hle
+  have hlen : (digitsStr (rstripZeros (fixedDigits 6 m))).length = (rstripZeros (fixedDigits 6 m)).length := by
+    simp [digitsStr]
+  have htake : (digitsStr (rstripZeros (fixedDigits 6 m)) ++ List.replicate 6 '0').take 6 =
+      digitsStr (fixedDigits 6 m) := by
+    conv => rhs; rw [← hpad]
+    rw [digitsStr_append, digitsStr_replicate_zero, List.take_append, hlen,
+      List.take_of_length_le (by omega), List.take_replicate]
+    congr 2
+    omega
+  rw [htake, numVal_digitsStr _ (fixedDigits_lt10 6 m), decVal_fixedDigits]
+  omega
+
+theorem optSec_frac (ds fs : List Nat) (hne : ds ≠ []) (hfne : fs ≠ []) (h : ∀ d ∈ ds, d < 10)
+    (hf : ∀ d ∈ fs, d < 10) (rest : List Char) :
+    optSec (digitsStr ds ++ '.' :: (digitsStr fs ++ 'S' :: rest)) = (some (decVal ds, digitsStr fs), rest) := by
+  unfold optSec
+  rw [spanDigits_stop ds h ('.' :: (digitsStr fs ++ 'S' :: rest)) (by intro c hc; simp at hc; subst hc; decide)]
+  simp only
+  cases hds : ds with
+  | nil => exact absurd hds hne
+  | cons a t =>
+    have : digitsStr (a :: t) = digitChar a :: digitsStr t := rfl
+    rw [this]
+    simp only
+    rw [spanDigits_stop fs hf ('S' :: rest) (by intro c hc; simp at hc; subst hc; decide)]
+    simp only
+    cases hfs : fs with
+    | nil => exact absurd hfs hfne
+    | cons b u =>
+      have hb : digitsStr (b :: u) = digitChar b :: digitsStr u := rfl
+      rw [hb]
+      simp only
+      rw [← this, numVal_digitsStr _ (by rw [← hds]; exact h)]
+
 theorem takeNum_fixed (w n : Nat) (rest : List Char) :
     takeNum w (digitsStr (fixedDigits w n) ++ rest) = some (n % 10 ^ w, rest) := by
   unfold takeNum
